@@ -1,7 +1,7 @@
 (* Correspondence for C02: Plan.Vars.variables_list / forwarded vs planner.getVariablesList (verif export) and the
    variables that actually accompanied the step's sub-request. *)
 From Coq Require Import List String Bool Arith.
-From Pebbles Require Import Base.Json Plan.Vars Plan.Header Merge.Model Plan.Steps Plan.StepsProofs Plan.StepsCount Corr.C07.
+From Pebbles Require Import Base.Json Plan.Vars Plan.Header Merge.Model Plan.Steps Plan.StepsProofs Plan.StepsCount Plan.Sanitize Corr.C07.
 Import ListNotations.
 Open Scope string_scope.
 Open Scope list_scope.
@@ -106,8 +106,39 @@ Definition plan_agrees (c : plancase) : bool :=
   | _, _ => false
   end.
 
-Inductive c2 := CStep (c : c2case) | CPlan (p : plancase).
-Definition agrees2 (c : c2) : bool := match c with CStep s => agrees s | CPlan p => plan_agrees p end.
+(* ---- the sanitizer: Plan.Sanitize.sanitize on the client's selection set vs planner.VerifSanitize ---- *)
+Record sancase := mkSan {
+  sTm : tmap; sSc : sschema;
+  sInput : list ssel;                         (* operation.SelectionSet as parsed and validated *)
+  sObsSel : list ssel;                        (* what sanitizeSelectionSet returned ... *)
+  sObsScrub : scrub                           (* ... and the helper fields it registered for removal *)
+}.
+Fixpoint ssel_eqb (a b : ssel) {struct a} : bool :=
+  match a, b with
+  | SanField al n t d sub, SanField al' n' t' d' sub' =>
+      (al =? al') && (n =? n') && (t =? t') && Nat.eqb d d' &&
+      (fix all (l l' : list ssel) := match l, l' with
+                                     | [], [] => true
+                                     | x :: r, y :: r' => ssel_eqb x y && all r r'
+                                     | _, _ => false end) sub sub'
+  | SanFrag c o sub, SanFrag c' o' sub' =>
+      (c =? c') && (o =? o') &&
+      (fix all (l l' : list ssel) := match l, l' with
+                                     | [], [] => true
+                                     | x :: r, y :: r' => ssel_eqb x y && all r r'
+                                     | _, _ => false end) sub sub'
+  | _, _ => false
+  end.
+Fixpoint ssels_eqb (a b : list ssel) : bool :=
+  match a, b with [], [] => true | x :: r, y :: r' => ssel_eqb x y && ssels_eqb r r' | _, _ => false end.
+Definition scrub_eq (m o : scrub) : bool :=
+  forallb (fun e => existsb (entry_eqb e) o) m && forallb (fun e => existsb (entry_eqb e) m) o.
+Definition san_agrees (c : sancase) : bool :=
+  let '(res, scr) := sanitize (sTm c) (sSc c) (sInput c) [] in
+  ssels_eqb res (sObsSel c) && scrub_eq scr (sObsScrub c).
+
+Inductive c2 := CStep (c : c2case) | CPlan (p : plancase) | CSan (s : sancase).
+Definition agrees2 (c : c2) : bool := match c with CStep s => agrees s | CPlan p => plan_agrees p | CSan s => san_agrees s end.
 
 Fixpoint mism_from (i : nat) (l : list c2) : list nat :=
   match l with [] => [] | c :: t => (if agrees2 c then [] else [i]) ++ mism_from (S i) t end.
